@@ -908,13 +908,16 @@ class Mgm2Computation(VariableComputation):
             self.logger.info(
                 f"Received gain from all neighbors {self._neighbors_gains}"
             )
+        # Gains are negative in max mode: compare the improvements they stand for.
+        sign = 1 if self._mode == "min" else -1
+        my_gain = sign * self._potential_gain
         if self._committed:
             neigh_gains = [
-                val
+                sign * val
                 for n, val in self._neighbors_gains.items()
                 if n != self._partner.name
             ]
-            if neigh_gains == [] or self._potential_gain > max(neigh_gains):
+            if neigh_gains == [] or my_gain > max(neigh_gains):
                 if self.logger.isEnabledFor(logging.INFO):
                     self.logger.info(
                         f"Commited and best gain : GO for "
@@ -933,8 +936,8 @@ class Mgm2Computation(VariableComputation):
             self._enter_state("go?")
 
         else:
-            max_neighbors = max(list(self._neighbors_gains.values()))
-            if self._potential_gain > max_neighbors:
+            max_neighbors = max(sign * g for g in self._neighbors_gains.values())
+            if my_gain > max_neighbors:
                 if self.logger.isEnabledFor(logging.INFO):
                     self.logger.info(
                         f"Local gain is best, {self.name} unilaterally changes its "
@@ -944,9 +947,13 @@ class Mgm2Computation(VariableComputation):
                     self._potential_value, self.current_cost - self._potential_gain
                 )
 
-            elif self._potential_gain == max_neighbors:
+            elif my_gain == max_neighbors:
                 ties = sorted(
-                    [k for k, v in self._neighbors_gains.items() if v == max_neighbors]
+                    [
+                        k
+                        for k, v in self._neighbors_gains.items()
+                        if sign * v == max_neighbors
+                    ]
                     + [self.name]
                 )
                 if ties[0] == self.name:
